@@ -30,7 +30,7 @@ REPO = common.REPO
 CACHE_REL = os.path.join('.cache', 'tranp')
 CLOCK_BASE = 1_600_000_000
 
-CONFIG_TEMPLATE = '''grammar: {repo}/data/grammar.lark
+CONFIG_TEMPLATE = '''grammar: {grammar}
 template_dirs:
   - {repo}/data/cpp/template
 trans_mapping: {repo}/data/i18n.yml
@@ -138,6 +138,7 @@ class Project:
 		self.output_language = output_language
 		self.input_globs = list(input_globs) if input_globs is not None else [f'{package}/**/*.py']
 		self.config_extra = config_extra
+		self.grammar_path = f'{REPO}/data/grammar.lark'		# may be replaced by a project-relative copy (set_grammar_copy)
 		self.tick = 0
 		os.makedirs(self.root, exist_ok=True)
 		self.write_config()
@@ -151,6 +152,7 @@ class Project:
 	def write_config(self) -> None:
 		text = CONFIG_TEMPLATE.format(
 			repo=REPO,
+			grammar=self.grammar_path,
 			input_globs='\n'.join(f'  - {g}' for g in self.input_globs),
 			output_dirs='\n'.join(f"  - '{d}'" for d in self.output_dirs),
 			output_language=self.output_language,
@@ -179,6 +181,17 @@ class Project:
 		os.utime(path, ns=(ns, ns))
 		return t
 
+	def set_grammar_copy(self, name: str) -> float:
+		"""Point the configuration at a copy of the shipped grammar inside the project (another path, fresh virtual mtime)."""
+		path = os.path.join(self.root, name)
+		shutil.copyfile(f'{REPO}/data/grammar.lark', path)
+		t = self.next_mtime()
+		ns = int(CLOCK_BASE) * 1_000_000_000 + self.tick * 250_000_000
+		os.utime(path, ns=(ns, ns))
+		self.grammar_path = name
+		self.write_config()
+		return t
+
 	def remove_module(self, module: str) -> None:
 		os.unlink(self.module_file(module))
 
@@ -202,7 +215,7 @@ class Project:
 			for fn in files:
 				p = os.path.join(r, fn)
 				rel = os.path.relpath(p, self.root)
-				if rel == 'config.yml' or rel.endswith('.py'):
+				if rel == 'config.yml' or rel.endswith('.py') or rel.endswith('.lark'):
 					continue
 				with open(p, 'rb') as f:
 					out[rel] = f.read()
